@@ -57,11 +57,13 @@ def check_chain(case, ev):
         if not on:
             continue
         if name == "ip" and case.get("split_ip"):
-            fa, exc = guarded(lambda: FileAnonymizer(**_kw(case, *kw)))
+            # the two address stages built directly from their own classes with their own options
+            # (IPv6 first, then IPv4, as the stream routine applies them)
+            a46, exc = guarded(lambda: (G.mk4(case["cfg"]), G.mk6(case["cfg"])))
             if exc is not None:
                 return core.exc_finding(exc, case, "single/")
             undo = bool(case["undo"])
-            nxt = "".join(anonymize_ip_addr(fa.anonymizer4, anonymize_ip_addr(fa.anonymizer6, l, undo), undo) for l in cur.splitlines(True))
+            nxt = "".join(anonymize_ip_addr(a46[0], anonymize_ip_addr(a46[1], l, undo), undo) for l in cur.splitlines(True))
         else:
             nxt, exc = guarded(lambda: core.run_io(FileAnonymizer(**_kw(case, *kw)), cur))
             if exc is not None:
